@@ -5,6 +5,7 @@ import (
 	"os"
 	"sync"
 	"sync/atomic"
+	"syscall"
 	"time"
 )
 
@@ -36,20 +37,50 @@ type opRecLazy struct {
 	since time.Time
 }
 
-// StartWatchdog arms the watchdog for this process.
+// cpuSeconds returns the CPU time (user + system) this process has consumed so far.
+func cpuSeconds() float64 {
+	var ru syscall.Rusage
+	if err := syscall.Getrusage(syscall.RUSAGE_SELF, &ru); err != nil {
+		return 0
+	}
+	return float64(ru.Utime.Sec+ru.Stime.Sec) + float64(ru.Utime.Usec+ru.Stime.Usec)/1e6
+}
+
+// StartWatchdog arms the watchdog for this process. A call counts as "does not return" when it has
+// been running for WatchdogLimit of wall time AND the process has burnt at least WatchdogCPU seconds
+// of CPU since the watchdog first saw it running: a loop that never ends consumes CPU, whereas a
+// machine that is out of memory or suspended stalls every process without any of them computing -
+// that must not be taken for a verdict about the library.
+var WatchdogCPU = 60.0
+
 func StartWatchdog(c *Ctx) {
 	go func() {
+		firstSeen := map[*opRecLazy]float64{} // CPU seconds of the process when the call was first seen old
 		for {
 			time.Sleep(2 * time.Second)
+			now := cpuSeconds()
 			var stuck *opRecLazy
+			alive := map[*opRecLazy]bool{}
 			curOps.Range(func(_, v interface{}) bool {
 				r := v.(*opRecLazy)
-				if time.Since(r.since) > WatchdogLimit {
+				if time.Since(r.since) < 10*time.Second {
+					return true
+				}
+				alive[r] = true
+				if _, ok := firstSeen[r]; !ok {
+					firstSeen[r] = now
+				}
+				if time.Since(r.since) > WatchdogLimit && now-firstSeen[r] >= WatchdogCPU {
 					stuck = r
 					return false
 				}
 				return true
 			})
+			for r := range firstSeen {
+				if !alive[r] {
+					delete(firstSeen, r)
+				}
+			}
 			if stuck == nil {
 				continue
 			}
@@ -58,7 +89,7 @@ func StartWatchdog(c *Ctx) {
 				defer func() { recover() }()
 				what = stuck.label()
 			}()
-			c.Violation(c.ID+":does-not-return", fmt.Sprintf("%s has not returned for %v (a loop that never ends): the check stops here", what, WatchdogLimit), map[string]interface{}{"call": what})
+			c.Violation(c.ID+":does-not-return", fmt.Sprintf("%s has not returned for %v while the process kept computing (a loop that never ends): the check stops here", what, WatchdogLimit), map[string]interface{}{"call": what})
 			var code int
 			if os.Getenv("VERIF_WORKER") != "" || os.Getenv("VERIF_RACE_WORKER") != "" {
 				code = c.FinishWorker()
